@@ -197,6 +197,9 @@ class Live:
         if k == "eval":
             v = self.space(op[1]).cells[op[2]](op[3])
             return "ok " + val_repr(v)
+        if k == "new_cells_src":
+            self.space(op[1]).new_cells(op[2], formula=op[3])
+            return "ok"
         if k == "set_param":
             self.space(op[1]).formula = "lambda i: None" if op[2] else None
             return "ok"
